@@ -174,6 +174,8 @@ class TimeGen(ProgGen):
         nm = f'!d{idx}'
         params = [('k', INT, False)] + ([('c', BOOL, False)] if r.random() < 0.3 else [])
         ret = EMPTY if r.random() < 0.6 else INT
+        if idx == 1 and r.random() < 0.6:
+            params, ret = [('k', INT, False)], INT       # a value-returning defeat function usable inside expressions
         f = Func(nm, params, ret)
         sc = dict(self.gsc)
         sc['k'] = V(INT, frozen=True)
@@ -257,6 +259,28 @@ class TimeGen(ProgGen):
         r = self.r
         kind = 'stop' if self.chance('p_stop') else 'undo'
         tctx = dict(ctx, dfuncs=self.dfuncs)
+        vfs = [f for f in self.dfuncs if f.ret == INT and len(f.params) == 1]
+        if vfs and r.random() < 0.15:
+            # a try body whose only defeat calls are nested in expressions and which does not fall through;
+            # the handler does, so what follows the try must still run when the handler ran
+            call = Call(r.choice(vfs), [Lit(INT, r.randint(0, 4))])
+            body = [self.mark()] + ([self.mut(sc)] if r.random() < 0.5 else [])
+            opts = ['write_return']
+            if ctx.get('ret') == INT:
+                opts += ['return_call', 'return_call']
+            if ctx.get('in_loop'):
+                opts += ['assign_break', 'if_continue']
+            k = r.choice(opts)
+            if k == 'return_call':
+                body.append(Ret(call))
+            elif k == 'write_return':
+                body += [ExprStmt(Call('write', [call])), Ret(None if ctx.get('ret') == EMPTY else self.gvar())]
+            elif k == 'assign_break':
+                body += [Assign(self.gvar(), call), Break()]
+            else:
+                body += [If(Bin('>', call, Lit(INT, 1)), [self.mark()]), Continue()]
+            handler = [self.mark(), self.mut(sc)]
+            return Try(body, kind, handler)
         body = self.try_items(sc, r.randint(2, 5), d, tctx)
         c = r.random()
         if c < 0.35:
